@@ -11,10 +11,13 @@ Init == l = 1 /\ sent = <<>>
 \* with RTX (SSRC + 1000, payload type 97) the original number is the 2-byte prefix and the rest is the original payload
 Key(p) == <<p.ssrc, p.seq>>
 SameMedia(p, q) == p.pl = q.pl /\ p.ts = q.ts /\ p.m = q.m /\ p.csrc = q.csrc
+\* (a header-extension member between the responder and the transport stamps every packet that passes, retransmissions
+\* included, with a fresh transport-wide number: the value of that one extension, id 7 in these programs, is not compared)
+NoTwcc(p) == [p EXCEPT !.xs = SelectSeq(p.xs, LAMBDA x : x.id # 7)]
 RetxOk(e) ==
   IF e.t # "rtp" \/ e.app \/ e.failed THEN TRUE
   ELSE IF e.pkt.pt = 96 /\ e.pkt.ssrc = e.s
-       THEN Key(e.pkt) \in DOMAIN sent => sent[Key(e.pkt)] = e.pkt
+       THEN Key(e.pkt) \in DOMAIN sent => NoTwcc(sent[Key(e.pkt)]) = NoTwcc(e.pkt)
   ELSE IF e.pkt.pt = 97 /\ e.pkt.ssrc = e.s + 1000 /\ Len(e.pkt.pl) >= 2
        THEN LET osn == e.pkt.pl[1] * 256 + e.pkt.pl[2]  k == <<e.s, osn>> IN
             k \in DOMAIN sent => (SubSeq(e.pkt.pl, 3, Len(e.pkt.pl)) = sent[k].pl /\ e.pkt.ts = sent[k].ts /\ e.pkt.m = sent[k].m)
